@@ -287,6 +287,20 @@ def monitor_attempt_loop(chk, tier):
                 mv = decode_metric(ex, st, rts[0])[1]
                 succ = payload(ex, st, mv, 0, 1, 'bool')
                 Ds['attempt-metrics'].require(st, succ.t == z3.BoolVal(oc[0] == 'Ok'), 'UpdateCheckResponseTime.successful == attempt outcome')
+                # the reported time is that of this attempt alone: from the last monotonic reading before its
+                # request to the first one after it
+                before_ = [x for x in evs[:i] if x.kind == 'env' and x.name.endswith('now_in_monotonic')]
+                after_ = [x for x in between if x.kind == 'env' and x.name.endswith('now_in_monotonic')]
+                if before_ and after_:
+                    from models import time_parts, dur_parts, NANOS
+                    bs_, bn_ = time_parts(ex, st, Tree({}, before_[-1].out, 'std::time::Instant'))
+                    as_, an_ = time_parts(ex, st, Tree({}, after_[0].out, 'std::time::Instant'))
+                    rt = payload(ex, st, mv, 0, 0, 'std::time::Duration')
+                    ds_, dn_ = dur_parts(ex, st, rt)
+                    Ds['attempt-metrics'].require(st, ds_ * NANOS + dn_ == (as_ * NANOS + an_) - (bs_ * NANOS + bn_),
+                                                  'UpdateCheckResponseTime of attempt %d == monotonic time spent in that attempt\'s exchange' % (k + 1))
+                else:
+                    Ds['attempt-metrics'].failed = Ds['attempt-metrics'].failed or ('violated', 'attempt %d is not bracketed by two monotonic clock readings: %s' % (k + 1, story(ex, st)), None, st)
             if oc[0] == 'Ok':
                 if not last:
                     D.failed = D.failed or ('violated', 'another request after a successful attempt: %s' % story(ex, st), None, st)
